@@ -3,6 +3,7 @@
 #include <map>
 #include <stdexcept>
 #include <string>
+#include <vector>
 namespace verif_fixture {
   template<typename M>
   decltype(auto) good_lower(M &m, const typename M::key_type &k) {
@@ -33,8 +34,33 @@ namespace verif_fixture {
     const auto itr = m.find(k);
     return (itr->second);
   }
+  // R12.2 (subscript exactness): an index into a sequence container is used only under 0 <= i < size()
+  template<typename C>
+  decltype(auto) good_index(C &c, int index) {
+    const auto pos = static_cast<typename C::size_type>(index);
+    if (pos >= c.size()) {
+      throw std::out_of_range("index out of range");
+    }
+    return (c[pos]);
+  }
+  template<typename C>
+  decltype(auto) bad_index(C &c, int index) {
+    const auto pos = static_cast<typename C::size_type>(index);
+    if (pos > c.size()) {
+      throw std::out_of_range("index out of range");
+    }
+    return (c[pos]);
+  }
+  template<typename C>
+  decltype(auto) bad_index_signed(C &c, int index) {
+    if (index >= static_cast<int>(c.size())) {
+      throw std::out_of_range("index out of range");
+    }
+    return (c[static_cast<typename C::size_type>(index)]);
+  }
   inline int use() {
     std::map<std::string, int> m;
-    return good_lower(m, "a") + bad_lower(m, "a") + good_find(m, "a") + bad_find(m, "a");
+    std::vector<int> v;
+    return good_lower(m, "a") + bad_lower(m, "a") + good_find(m, "a") + bad_find(m, "a") + good_index(v, 0) + bad_index(v, 0) + bad_index_signed(v, 0);
   }
 }
